@@ -145,7 +145,7 @@ var sweepItems = func() []sweepItem {
 	var out []sweepItem
 	for _, ct := range ctypes {
 		for _, m := range methodNames(ct) {
-			for _, st := range []string{"empty", "three", "grown", "full", "self-arg"} {
+			for _, st := range []string{"empty", "three", "grown", "full", "self-arg", "panicking-key"} {
 				out = append(out, sweepItem{ct.Name, m, st})
 			}
 		}
@@ -166,7 +166,7 @@ func runSweepItem(i uint64) (bool, error) {
 	ct := ctypeByName[it.Type]
 	self := reflect.ValueOf(ct.New())
 	switch it.State {
-	case "three", "self-arg":
+	case "three", "self-arg", "panicking-key":
 		populate(self, ct, 3)
 	case "grown":
 		populate(self, ct, 200)
@@ -200,6 +200,20 @@ func runSweepItem(i uint64) (bool, error) {
 			return false, nil
 		}
 	}
+	if it.State == "panicking-key" {
+		// a caller-supplied key whose Hash / Equals panic (nil key, a key of another concrete type meeting an unchecked type assertion):
+		// the call may fail, but it must give the structure's lock back
+		replaced := false
+		for i := range args {
+			if args[i].Type() == linkedKeyType || (args[i].Kind() == reflect.Interface && args[i].Type().NumMethod() > 0 && reflect.TypeOf(panicKey{}).Implements(args[i].Type())) {
+				args[i] = reflect.ValueOf(panicKey{}).Convert(args[i].Type())
+				replaced = true
+			}
+		}
+		if !replaced {
+			return false, nil
+		}
+	}
 	out := guardedCall(func() []reflect.Value { return m.Call(args) })
 	if out.blocked != "" {
 		return true, fmt.Errorf("%s.%s on a structure no other goroutine touches (state %s) never returns: it blocks on the structure's own lock %s", it.Type, it.Method, it.State, out.blocked)
@@ -220,7 +234,7 @@ func runSweepItem(i uint64) (bool, error) {
 }
 
 var sweepDeadlock = pbt.RegisterSweep(pbt.Sweep{Prop: "C10", Name: "method-self-deadlock",
-	Rule: "exhaustive over (type, exported method, state) for the 17 hash map/set types, the linked list and the two request queues (reflection over the method sets; states empty / 3 elements / 200 elements / bounded and full / 3 elements with the structure itself passed wherever a structure of its own type is expected): the method is invoked with generated arguments in its own goroutine on an instance nobody else touches, followed by a locking probe (Clear); a call found parked on a sync primitive inside golib in three consecutive goroutine-stack samples is a self-deadlock (no wall-clock verdict; a blocking dequeue on an empty queue is not issued); every (type, method, state) is a distinct non-trivial case",
+	Rule: "exhaustive over (type, exported method, state) for the 17 hash map/set types, the linked list and the two request queues (reflection over the method sets; states empty / 3 elements / 200 elements / bounded and full / 3 elements with the structure itself passed wherever a structure of its own type is expected / 3 elements and a key whose Hash and Equals panic): the method is invoked with generated arguments in its own goroutine on an instance nobody else touches, followed by a locking probe (Clear); a call found parked on a sync primitive inside golib in three consecutive goroutine-stack samples is a self-deadlock (no wall-clock verdict; a blocking dequeue on an empty queue is not issued); every (type, method, state) is a distinct non-trivial case",
 	N:    uint64(len(sweepItems)), Run: runSweepItem,
 	Show: func(i uint64) interface{} { return sweepItems[i] }})
 
@@ -1010,6 +1024,107 @@ var specCross = pbt.Register(pbt.Spec[CrossCase]{
 
 func TestCrossPutAll(t *testing.T) { specCross.Check(t) }
 
+// ---- counters: concurrent adds to the same key -----------------------------------------------------------------------
+
+type AddCase struct {
+	Type   string `json:"type"`
+	G      int    `json:"g"`
+	K      int    `json:"k"`      // adds per goroutine and key
+	Rounds int    `json:"rounds"` // fresh keys (the entry does not exist when the goroutines start)
+	Method string `json:"method"` // Add | AddLast | AddFirst
+}
+
+func addTypes() []string {
+	var out []string
+	for _, ct := range ctypes {
+		if ct.Kind != "map" {
+			continue
+		}
+		self := reflect.ValueOf(ct.New())
+		if m := self.MethodByName("Add"); m.IsValid() && m.Type().NumIn() == 2 {
+			switch m.Type().In(1).Kind() {
+			case reflect.Int, reflect.Int32, reflect.Int64, reflect.Float32, reflect.Float64:
+				if g := self.MethodByName("Get"); g.IsValid() && g.Type().NumIn() == 1 {
+					out = append(out, ct.Name)
+				}
+			}
+		}
+	}
+	return out
+}
+
+func runAdd(c AddCase) *pbt.Result {
+	if c.Type == "" { // every type that has an accumulating Add
+		for _, ty := range addTypes() {
+			cc := c
+			cc.Type = ty
+			if r := runAdd(cc); r.Err != nil {
+				return r
+			}
+		}
+		return &pbt.Result{NT: true, Classes: []string{"all-accumulating-map-types", "method=" + c.Method}}
+	}
+	ct := ctypeByName[c.Type]
+	self := reflect.ValueOf(ct.New())
+	add := self.MethodByName(c.Method)
+	if !add.IsValid() || add.Type().NumIn() != 2 {
+		add = self.MethodByName("Add")
+	}
+	get := self.MethodByName("Get")
+	want := renderOne(reflect.ValueOf(c.G * c.K).Convert(get.Type().Out(0)))
+	for round := 0; round < c.Rounds; round++ {
+		key := 1 + round
+		var wg sync.WaitGroup
+		var gate, ready atomic.Int32
+		var panicked atomic.Value
+		for g := 0; g < c.G; g++ {
+			wg.Add(1)
+			go func() {
+				defer wg.Done()
+				defer func() {
+					if r := recover(); r != nil {
+						panicked.Store(fmt.Sprint(r))
+					}
+				}()
+				args := callArgs(add, key, 1, self, ct) // built before the start signal: the calls themselves are what overlaps
+				ready.Add(1)
+				for gate.Load() == 0 {
+				}
+				for i := 0; i < c.K; i++ {
+					add.Call(args)
+				}
+			}()
+		}
+		for int(ready.Load()) < c.G {
+		}
+		gate.Store(1)
+		wg.Wait()
+		if v := panicked.Load(); v != nil {
+			return pbt.Fail("%s.%s panicked under concurrency: %v", c.Type, c.Method, v)
+		}
+		if got := render(get.Call(callArgs(get, key, 0, self, ct))); got != want {
+			return pbt.Fail("%s: %d goroutines each added 1 to key %d (not present before) %d times with %s; Get says %s, every sequential order gives %s (round %d)", c.Type, c.G, key, c.K, c.Method, got, want, round)
+		}
+	}
+	if err := structuralAudit(self, ct); err != nil {
+		return pbt.Fail("%s: %v", c.Type, err)
+	}
+	return &pbt.Result{NT: true, Classes: []string{"type=" + c.Type, "method=" + c.Method}}
+}
+
+var specAdd = pbt.Register(pbt.Spec[AddCase]{
+	Prop: "C10", Name: "add-stress",
+	Rule:  "for each of the 7 map types whose Add accumulates into the entry of a key: 200-800 rounds, each with a fresh key (no entry yet), in which 2-8 goroutines start together and add 1 to that key 1-3 times each through Add / AddLast / AddFirst; additions commute, so every sequential order ends with Get(key) = number of additions; structural audit at the end; every case is non-trivial; distinct by case",
+	Quick: 8, Thorough: 400,
+	Draw: func(t *rapid.T) AddCase {
+		return AddCase{G: rapid.IntRange(2, 8).Draw(t, "g"), K: rapid.IntRange(1, 3).Draw(t, "k"),
+			Rounds: rapid.IntRange(200, pbt.Pick(800, 3000)).Draw(t, "rounds"), Method: rapid.SampledFrom([]string{"Add", "Add", "AddLast", "AddFirst"}).Draw(t, "method")}
+	},
+	Run: runAdd,
+})
+
+func TestAddStress(t *testing.T) { specAdd.Check(t) }
+
 // ---- 3c. growth stress: concurrent insertions of distinct keys across several table growths -----------------------
 
 type GrowthCase struct {
@@ -1211,6 +1326,15 @@ func runBound(c BoundCase) *pbt.Result {
 			sc.Call(in)
 		}
 		ins := self.MethodByName(insertOp(ct))
+		getM, hasM := reflect.Value{}, reflect.Value{}
+		if !isQueue {
+			if m := self.MethodByName("Get"); m.IsValid() && m.Type().NumIn() == 1 && m.Type().NumOut() == 1 {
+				getM = m
+			}
+			if m := self.MethodByName("ContainsKey"); m.IsValid() && m.Type().NumIn() == 1 {
+				hasM = m
+			}
+		}
 		var wg sync.WaitGroup
 		var gate atomic.Int32
 		var accepted atomic.Int64
@@ -1231,6 +1355,12 @@ func runBound(c BoundCase) *pbt.Result {
 					out := ins.Call(callArgs(ins, id, id, self, ct))
 					if isQueue && len(out) == 1 && out[0].Kind() == reflect.Bool && out[0].Bool() {
 						accepted.Add(1)
+					}
+					if getM.IsValid() { // read the element just inserted and an older one (it may have been evicted meanwhile)
+						getM.Call(callArgs(getM, id, 0, self, ct))
+						if i > 0 {
+							getM.Call(callArgs(getM, id-1, 0, self, ct))
+						}
 					}
 				}
 			}(p)
@@ -1264,6 +1394,49 @@ func runBound(c BoundCase) *pbt.Result {
 		if err := structuralAudit(self, ct); err != nil {
 			return pbt.Fail("%s: %v", c.Type, err)
 		}
+		// lookups agree with each other for every element that was ever inserted (present or evicted)
+		if getM.IsValid() && hasM.IsValid() {
+			none := render(getM.Call(callArgs(getM, 987654, 0, self, ct)))
+			for id := 1; id <= total; id++ {
+				has := hasM.Call(callArgs(hasM, id, 0, self, ct))[0].Bool()
+				got := render(getM.Call(callArgs(getM, id, 0, self, ct)))
+				if has != (got != none) {
+					return pbt.Fail("%s (bound %d, round %d): after %d concurrent insertions ContainsKey(%d)=%v but Get(%d)=%s (a key never inserted reads %s): the two lookups disagree", c.Type, limit, round, total, id, has, id, got, none)
+				}
+			}
+			// one element is looked up, pushed out by `bound` fresh insertions made without any lookup in between, and
+			// inserted again with another value: the lookup must show that value (nothing remembered from before)
+			if size > 0 && len(callArgs(ins, 1, 1, self, ct)) == 2 {
+				k := total // the newest element is present
+				if hasM.Call(callArgs(hasM, k, 0, self, ct))[0].Bool() {
+					getM.Call(callArgs(getM, k, 0, self, ct))
+					for j := 1; j <= limit; j++ {
+						ins.Call(callArgs(ins, 100000+j, 1, self, ct))
+					}
+					if !hasM.Call(callArgs(hasM, k, 0, self, ct))[0].Bool() {
+						args := callArgs(ins, k, k+7000, self, ct)
+						ins.Call(args)
+						if got, want := render(getM.Call(callArgs(getM, k, 0, self, ct))), renderOne(args[1]); got != want {
+							return pbt.Fail("%s (bound %d): key %d was looked up, then evicted by %d insertions, then inserted again with the value %s: Get(%d)=%s", c.Type, limit, k, limit, want, k, got)
+						}
+					}
+				}
+			}
+			// elements that were looked up and then evicted come back (single goroutine now): what is put is found
+			for id := 1; id <= total && id <= 3*limit+3; id++ {
+				if !hasM.Call(callArgs(hasM, id, 0, self, ct))[0].Bool() {
+					args := callArgs(ins, id, id+5000, self, ct) // a value the key never had before
+					ins.Call(args)
+					want := ""
+					if len(args) == 2 {
+						want = renderOne(args[1])
+					}
+					if got := render(getM.Call(callArgs(getM, id, 0, self, ct))); got == none || (want != "" && got != want) || !hasM.Call(callArgs(hasM, id, 0, self, ct))[0].Bool() {
+						return pbt.Fail("%s (bound %d): key %d was looked up, evicted by later insertions and inserted again with the value %s; right after that insertion Get(%d)=%s (absent reads %s)", c.Type, limit, id, want, id, got, none)
+					}
+				}
+			}
+		}
 	}
 	if res := classifyNewRaces(c.Type); res != nil {
 		return res
@@ -1273,7 +1446,7 @@ func runBound(c BoundCase) *pbt.Result {
 
 var specBound = pbt.Register(pbt.Spec[BoundCase]{
 	Prop: "C10", Name: "bound-stress",
-	Rule:  "for every type with a bound (SetMax / queue capacity): 500-4000 rounds (quick) in which 2-6 goroutines insert distinct fresh elements into a fresh instance bounded to 1..5 elements (no consumer); invariants sound for any schedule: never more elements than the bound, exactly min(total, bound) at the end, for the queues exactly that many puts accepted, structural audit; non-trivial = more insertions than the bound; distinct by case",
+	Rule:  "for every type with a bound (SetMax / queue capacity): 500-4000 rounds (quick) in which 2-6 goroutines insert distinct fresh elements into a fresh instance bounded to 1..5 elements (no consumer); invariants sound for any schedule: never more elements than the bound, exactly min(total, bound) at the end, for the queues exactly that many puts accepted, structural audit, and (maps, whose producers also look up what they insert) Get and ContainsKey agree for every element ever inserted; non-trivial = more insertions than the bound; distinct by case",
 	Quick: 120, Thorough: 6000,
 	Draw: func(t *rapid.T) BoundCase {
 		return BoundCase{Type: rapid.SampledFrom(boundTypes()).Draw(t, "type"), Bound: rapid.IntRange(1, 5).Draw(t, "bound"), Producers: rapid.IntRange(2, 6).Draw(t, "producers"),
@@ -1468,4 +1641,46 @@ func TestRaceDetector(t *testing.T) {
 		pbt.Extra("race-detector", "race_reports_read_from_detector_log", raceSeen)
 	}()
 	specRace.Check(t)
+}
+
+// TestRacePairs: exhaustive over (type, pair of point operations).
+func TestRacePairs(t *testing.T) {
+	if raceLogPrefix == "" {
+		t.Skip("VERIF_RACE_LOG not set: this sub-check runs in the -race group of the driver")
+	}
+	// every pair of point operations of every type, each operation run by its own goroutine on the same keys: the
+	// generated programs of race-detector sample such pairs, this loop has them all. The detector's log is read once
+	// per type (its reports name the two methods).
+	shard, nshards := pbt.Shard()
+	for ti, ct := range ctypes {
+		if ti%nshards != shard {
+			continue
+		}
+		ops := pointOpNames(ct)
+		pairs := 0
+		for i, a := range ops {
+			for _, b := range ops[i:] {
+				var pa, pb []OpC
+				for k := 0; k < 6; k++ {
+					pa = append(pa, OpC{M: a, K: k % 3, V: k})
+					pb = append(pb, OpC{M: b, K: k % 3, V: k + 10})
+				}
+				c := ConcCase{Type: ct.Name, Prefill: 3, Programs: [][]OpC{pa, pb}}
+				self, _, hang := runConcurrent(c, false)
+				if hang != "" {
+					specRace.RunCase(t, c) // reproduces and reports through the usual path
+					t.Fatalf("%s: %s", ct.Name, hang)
+				}
+				if err := structuralAudit(self, ct); err != nil {
+					specRace.RunCase(t, c)
+					t.Fatalf("%s: %s and %s side by side: %v", ct.Name, a, b, err)
+				}
+				pairs++
+			}
+		}
+		if res := classifyNewRaces(ct.Name); res != nil && res.Err != nil {
+			t.Fatalf("C10/race-detector violated (all %d pairs of point operations of %s, two goroutines): %v", pairs, ct.Name, res.Err)
+		}
+		pbt.Extra("race-detector", "operation_pairs_run_side_by_side:"+ct.Name, pairs)
+	}
 }
